@@ -41,9 +41,13 @@ type c20Op struct {
 }
 
 type c20Case struct {
-	Files bool    `json:"files,omitempty"` // journals live in real files instead of byte slices
-	Ops   []c20Op `json:"ops"`
+	Files bool     `json:"files,omitempty"` // journals live in real files instead of byte slices
+	Lim   [][2]int `json:"lim,omitempty"`   // when set: replica i always asks with item limit index Lim[i][0] and byte limit index Lim[i][1], also while draining
+	Ops   []c20Op  `json:"ops"`
 }
+
+var c20ItemLimits = []int{1, 1, 2, 3, 5, data_model.MaxJournalItemsSent}
+var c20ByteLimits = []int{data_model.MaxJournalBytesSent, data_model.MaxJournalBytesSent, 1, 300, 100_000}
 
 var c20BaseNames = []string{"a", "ab", "abc", "abd", "b", "ba", "c", "p:a", "p:ab", "q:a", "p:b", "q:ab"}
 var c20NamespaceNames = []string{"p", "q"}
@@ -78,7 +82,7 @@ type c20Source struct {
 	freed   map[int32][]string           // names released by a rename and not held now
 	nextID  int64
 	version int64
-	ops     int // number of applied source edits (drives update time)
+	ops     int                        // number of applied source edits (drives update time)
 	everHad map[int32]map[string]int64 // name -> id of the last holder
 }
 
@@ -269,17 +273,18 @@ type c20Replica struct {
 }
 
 type c20World struct {
-	t        vpT
-	src      *c20Source
-	reps     []*c20Replica
-	files    bool
-	dir      string
-	maxItems int
-	maxBytes int
-	last     []tlmetadata.Event
-	cls      map[string]bool
-	lastRen  map[int32]*c20Ent // entity of each type renamed most recently
-	borrow   map[int32]c20Borrow // the most recent "name taken after another entity released it", per type
+	t                                         vpT
+	src                                       *c20Source
+	reps                                      []*c20Replica
+	files                                     bool
+	dir                                       string
+	maxItems                                  int
+	maxBytes                                  int
+	last                                      []tlmetadata.Event
+	cls                                       map[string]bool
+	lastRen                                   map[int32]*c20Ent   // entity of each type renamed most recently
+	lim                                       [][2]int            // fixed per-replica limits (nil: every delivery brings its own)
+	borrow                                    map[int32]c20Borrow // the most recent "name taken after another entity released it", per type
 	renameOntoFreed, truncReload, groupToggle bool
 }
 
@@ -302,7 +307,24 @@ func (w *c20World) loaderFor(idx int) MetricsStorageLoader {
 		var ret tlmetadata.GetJournalResponsenew
 		up.j.mu.RLock()
 		up.j.getJournalDiffLocked3Limits(from, &ret, w.maxItems, w.maxBytes)
+		var next tlmetadata.GetJournalResponsenew // the first event the replica is missing, asked for without a byte limit
+		up.j.getJournalDiffLocked3Limits(from, &next, 1, math.MaxInt)
 		up.j.mu.RUnlock()
+		if len(next.Events) > 0 {
+			// progress: an empty answer means "nothing new" to the client, it would wait at this version forever
+			if w.maxBytes < len(next.Events[0].Name)+len(next.Events[0].Data)+60 {
+				w.class("byte-limit-below-next-event")
+			}
+			if len(ret.Events) == 0 {
+				w.t.Fatalf("replica %s is behind %s (asks from version %d, next event is v%d of %d bytes) but the diff with limits items=%d bytes=%d is empty: with this batching it never converges",
+					r.name, up.name, from, next.Events[0].Version, len(next.Events[0].Data), w.maxItems, w.maxBytes)
+			}
+			if ret.Events[0] != next.Events[0] {
+				w.t.Fatalf("replica %s asks from version %d: diff starts with v%d, the next event of %s is v%d", r.name, from, ret.Events[0].Version, up.name, next.Events[0].Version)
+			}
+		} else if len(ret.Events) != 0 {
+			w.t.Fatalf("replica %s asks from version %d: %d events returned, %s has nothing newer", r.name, from, len(ret.Events), up.name)
+		}
 		// the answer travels as the TL result of statshouse.getMetrics3
 		args := tlstatshouse.GetMetrics3{From: from}
 		wire, err := args.WriteResultTL1(nil, ret)
@@ -389,6 +411,9 @@ func (w *c20World) staleCollision(r *c20Replica, evs []tlmetadata.Event) (metric
 
 func (w *c20World) deliver(idx, maxItems, maxBytes int) (finished bool) {
 	r := w.reps[idx]
+	if w.lim != nil {
+		maxItems, maxBytes = c20ItemLimits[w.lim[idx][0]%len(c20ItemLimits)], c20ByteLimits[w.lim[idx][1]%len(c20ByteLimits)]
+	}
 	w.maxItems, w.maxBytes = maxItems, maxBytes
 	w.last = nil
 	// peek at what will arrive to classify the delivery (the loader is deterministic)
@@ -985,8 +1010,11 @@ func c20Prop(t vpT, c c20Case) (nontrivial bool, classes []string) {
 			}
 		}
 	}()
-	itemLimits := []int{1, 1, 2, 3, 5, data_model.MaxJournalItemsSent}
-	byteLimits := []int{data_model.MaxJournalBytesSent, data_model.MaxJournalBytesSent, 1, 300, 100_000}
+	itemLimits, byteLimits := c20ItemLimits, c20ByteLimits
+	if len(c.Lim) == len(c20ReplicaDefs) {
+		w.lim = c.Lim
+		w.class("fixed-limits-per-replica")
+	}
 	for _, op := range c.Ops {
 		switch op.K {
 		case "dl":
@@ -1172,6 +1200,11 @@ func c20GenSegment() *rapid.Generator[[]c20Op] {
 func c20Gen() *rapid.Generator[c20Case] {
 	return rapid.Custom(func(t *rapid.T) c20Case {
 		c := c20Case{Files: rapid.IntRange(0, 9).Draw(t, "files") == 9}
+		if rapid.IntRange(0, 2).Draw(t, "fixed-limits") == 0 { // every replica keeps one (items, bytes) pair for the whole history and the final drain
+			for range c20ReplicaDefs {
+				c.Lim = append(c.Lim, [2]int{rapid.IntRange(0, len(c20ItemLimits)-1).Draw(t, "items"), rapid.IntRange(0, len(c20ByteLimits)-1).Draw(t, "bytes")})
+			}
+		}
 		for _, seg := range rapid.SliceOfN(c20GenSegment(), 1, 30).Draw(t, "segments") {
 			c.Ops = append(c.Ops, seg...)
 		}
